@@ -97,6 +97,15 @@ theorem fontScale_eq (f : Font) : fontHScale f = f.hscale ∧ fontVScale f = f.v
     simp only [type3_hscale, type3_vscale, apply_matrix_norm]
     constructor <;> grind
 
+/-- `LTChar.upright` (regenerated) is the text model's `uprightOf` of the text rendering matrix. -/
+theorem upright_eq (T : Matrix) (th : Rat) :
+    ltchar_upright T.1 T.2.1 T.2.2.1 T.2.2.2.1 (rs_scaling th) = uprightOf T th := by
+  obtain ⟨a, b, c, d, e, f⟩ := T
+  simp only [ltchar_upright, uprightOf, rs_scaling]
+  have h : a * d * (th * (1 / 100)) = a * d * (th / 100) := by grind
+  have h2 : (a * d * (th * (1 / 100)) > 0) = (0 < a * d * (th / 100)) := by rw [h]
+  simp only [h2]
+
 /-- The glyph `render_char`/`LTChar` build at pen position `(x, y)` of the line is the glyph the
 text model paints with `Tm = translate(x, y) × Tlm` — horizontal and vertical writing, simple,
 Type 3 and CID fonts. -/
@@ -127,7 +136,7 @@ theorem ltchar_eq_observe (f : Font) (M ctm : Matrix) (gs : GS) (x y : Rat) (c :
     generalize apply_matrix_rect T _ = R at ho ⊢
     obtain ⟨x0, y0, x1, y1⟩ := R
     simp only at ho
-    simp [ho.1, ho.2]
+    simp [ho.1, ho.2, upright_eq]
   · have hv' : f.vertical = false := by simpa using hv
     simp only [hv', Bool.false_eq_true, if_false]
     have hadv : ltchar_adv (charWidth f c) gs.Tfs (rs_scaling gs.Th) = f.width c * f.hscale * gs.Tfs * (gs.Th / 100) := by
@@ -143,7 +152,7 @@ theorem ltchar_eq_observe (f : Font) (M ctm : Matrix) (gs : GS) (x y : Rat) (c :
     generalize apply_matrix_rect T _ = R at ho ⊢
     obtain ⟨x0, y0, x1, y1⟩ := R
     simp only at ho
-    simp [ho.1, ho.2]
+    simp [ho.1, ho.2, upright_eq]
 
 /-- The glyph box in text space `LTChar.__init__` computes before it applies the matrix
 (horizontal: `(0, descent + rise, adv, descent + rise + fontsize)`; vertical: placed by the position
